@@ -13,7 +13,9 @@ contract(_G + "compute_face_areas", trusted=True, props=["C05", "C08"],
          returns="tuple(opaque, opaque)",
          ensures=["same(result[0], uf('face_areas', src(self), quadrature_rule, order, latlon))",
                   "same(result[1], uf('face_jacobian', src(self), quadrature_rule, order, latlon))"],
-         notes="assumed here; read-only on the grid's cached slots (scanned syntactically by checks/C08 frame scan)")
+         # read-only on the grid: it returns its result and caches nothing (Grid.face_areas / face_jacobian do the caching)
+         options={"frame_scan": ("self", [])},
+         notes="value contract assumed (uninterpreted); frame obligation decided syntactically from the AST")
 
 contract("uxarray.grid.geometry._grid_to_matplotlib_linecollection", trusted=True, props=["C15"],
          params={"grid": "obj('Grid')", "periodic_elements": "opaque", "projection": "opaque"},
